@@ -7,11 +7,12 @@ for the oracle - the messages that were sent.
   mode 'binary'       a BasicDBusProtocol subclass with `_authenticated = True` set by hand
   mode 'stub-client'  / 'stub-server': line mode with a scripted stub authenticator (outcomes c/s/f per line)
   mode 'real-client'  ClientAuthenticator on a non-UNIX transport (server lines REJECTED / OK <hex>)
-  mode 'real-server'  BusProtocol + BusAuthenticator (ANONYMOUS), `txdbus.protocol._is_linux = False`
+  mode 'real-server'  BusProtocol + BusAuthenticator (ANONYMOUS); the transport always offers a stub socket
 
 Observation of the implementation (canonical, compared with the Lean model = S3): the effects in
 order (raw message delivered, line handed to the authenticator, loseConnection, exception) and the
-final (_buffer, _nextMsgLen, _endian, _authenticated, _firstByte, transport.disconnecting).
+final (_buffer, _authenticated - pinned by the test suite -, the cached length and the first-byte flag when they
+are where we know them, transport.disconnecting).
 For the real authenticators the outcome of every handled line (cont / success / failed) is recorded
 through a wrapper and handed to the model as its authenticator script.
 
